@@ -20,6 +20,7 @@ import ast
 from ..cfg import cfg_of
 from ..core import (
     AnalysisError,
+    ancestors,
     call_name,
     dotted,
     enclosing_stmt,
@@ -328,6 +329,29 @@ def rule_cancel(program, ctx):
         ctx.ok(rid, cfg.ast_of(whole[0]), "disconnect form removes the client's whole registry entry")
     else:
         ctx.bad(finding_func(P, rid, fn, "unsubscribe(client_id) does not remove the client's registry entry", text="def unsubscribe(...) :: whole client"))
+    # the single-subscription form: selected by `sub_id is not None` ("" is a legal id), and it never removes the client's whole entry
+    # (subscribe keeps a reference to that dict across its own `await self.unsubscribe(client_id, sub_id)`)
+    def single(expr, pol):
+        if isinstance(expr, ast.Compare) and len(expr.ops) == 1 and dotted(expr.left) == "sub_id" and isinstance(expr.comparators[0], ast.Constant) and expr.comparators[0].value is None:
+            return (isinstance(expr.ops[0], ast.IsNot) and pol) or (isinstance(expr.ops[0], ast.Is) and not pol)
+        return False
+
+    def whole_form(expr, pol):
+        return single(expr, not pol)
+
+    truthy = [n for n in walk_no_nested(fn) if isinstance(n, (ast.If, ast.IfExp)) and any((isinstance(x, ast.Name) and x.id == "sub_id" and not isinstance(getattr(x, "_parent", None), (ast.Compare, ast.Subscript, ast.Call, ast.Tuple, ast.Index))) for x in ast.walk(n.test))]
+    if truthy:
+        ctx.bad(finding_at(P, rid, truthy[0], "unsubscribe selects its form by the truthiness of sub_id: the legal subscription id \"\" takes the whole-client branch, so CLOSE \"\" (or a "
+                           "REQ re-using \"\") drops every subscription of the connection"))
+    else:
+        ctx.ok(rid, fn, "form selected by `sub_id is not None`")
+    wf = test_edges(cfg, whole_form)
+    for w in whole:
+        if must_pass(cfg, wf, [w]):
+            ctx.bad(finding_at(P, rid, cfg.ast_of(w), "closing one subscription can remove the client's whole registry entry: a REQ that replaces the connection's only subscription then "
+                               "registers the new one in a detached dict - a later CLOSE cannot find it and it keeps sending"))
+        else:
+            ctx.ok(rid, cfg.ast_of(w), "the whole entry is removed only in the disconnect form (sub_id is None)")
     cn = program.func("nostr_relay.storage.base:BaseSubscription.cancel")
     if any(isinstance(c.func, ast.Attribute) and c.func.attr == "cancel" and dotted(c.func.value) == "self.query_task" for c in ast.walk(cn) if isinstance(c, ast.Call)):
         ctx.ok(rid, cn, "BaseSubscription.cancel -> query_task.cancel()")
@@ -485,7 +509,32 @@ def rule_liveness(program, ctx, prop=P, rid="C13.liveness"):
                            "unsubscribe does not purge the queue"))
 
 
+def rule_subid(program, ctx):
+    rid = ctx.rule(
+        "C13.subid",
+        "sibling agreement: the REQ and the CLOSE branch of the connection handler derive the subscription id from message[1] by the same expression "
+        "(otherwise CLOSE looks up another key than REQ registered and is a silent no-op)",
+        floor=1,
+    )
+    sc = program.func("nostr_relay.web:start_client")
+    exprs = {}
+    for b in stores_of(sc, "sub_id"):
+        if isinstance(b, ast.Assign):
+            br = next((a for a in ancestors(b) if isinstance(a, ast.If) and "command ==" in ast.unparse(a.test)), None)
+            label = ast.unparse(br.test) if br is not None else "?"
+            exprs.setdefault(ast.unparse(b.value), []).append((label, b))
+    if len(exprs) == 1 and sum(len(v) for v in exprs.values()) >= 2:
+        ctx.ok(rid, list(exprs.values())[0][0][1], f"REQ and CLOSE both use `{list(exprs)[0]}`")
+    elif len(exprs) > 1:
+        b = list(exprs.values())[-1][0][1]
+        ctx.bad(finding_at(P, rid, b, f"the subscription id is derived differently in different branches ({sorted(exprs)}): for ids where the two renderings differ (null, booleans, arrays) "
+                           "CLOSE does not find the subscription REQ registered"))
+    else:
+        ctx.bad(finding_func(P, rid, sc, "REQ/CLOSE no longer bind a subscription id", text="def start_client(...) :: sub_id"))
+
+
 def run(program, ctx):
+    rule_subid(program, ctx)
     rule_eose(program, ctx)
     rule_total(program, ctx)
     rule_limit(program, ctx)
